@@ -110,6 +110,7 @@ func runC18(p *core.Prog, r *core.Result) {
 	}
 	var flow func(f *ssa.Function, start int, record map[ssa.Instruction]int, depth int) [2]int
 	summaries := map[*ssa.Function]map[int][2]int{}
+	retSplit := map[*ssa.Return][2]int{} // returns that hand on a helper's error: states by outcome
 	flow = func(f *ssa.Function, start int, record map[ssa.Instruction]int, depth int) [2]int {
 		in := map[*ssa.BasicBlock]int{f.Blocks[0]: start}
 		work := []*ssa.BasicBlock{f.Blocks[0]}
@@ -160,6 +161,13 @@ func runC18(p *core.Prog, r *core.Result) {
 				if ret, ok := ins.(*ssa.Return); ok {
 					vals := core.RetVals(ret)
 					switch {
+					case ei >= 0 && ei < len(vals) && splitErr != nil && vals[ei] == splitErr:
+						// `return helper(...)`: the helper's outcome split carries over
+						end[0] |= split[0]
+						end[1] |= split[1]
+						if record != nil {
+							retSplit[ret] = split
+						}
 					case ei < 0 || ei >= len(vals):
 						end[0] |= st
 					case core.IsNilConst(vals[ei]):
@@ -224,7 +232,15 @@ func runC18(p *core.Prog, r *core.Result) {
 		for _, c := range core.Calls(h) {
 			if call, ok := c.(*ssa.Call); ok {
 				if name, ok := isTargetEvent(call); ok {
-					m.Events[name] = append(m.Events[name], call)
+					dup := false
+					for _, e := range m.Events[name] {
+						if e == call {
+							dup = true
+						}
+					}
+					if !dup {
+						m.Events[name] = append(m.Events[name], call)
+					}
 				}
 			}
 		}
@@ -317,6 +333,40 @@ func runC18(p *core.Prog, r *core.Result) {
 		}
 		// error/nil agreement: nil return needs up-to-date or succeeded; error return needs failed or the silent dependency case
 		vals := core.RetVals(ret)
+		if rs, ok := retSplit[ret]; ok && len(vals) == 1 {
+			// a helper that hands back the error it was given: the caller's knowledge about that argument decides
+			// which half of the split applies
+			if hc, isCall := vals[0].(*ssa.Call); isCall {
+				if h := core.Callee(hc); h != nil && h.Blocks != nil {
+					passJ := -1
+					for _, hr := range core.ReturnsOf(h) {
+						hv := core.RetVals(hr)
+						prm, isPrm := hv[len(hv)-1].(*ssa.Parameter)
+						if !isPrm {
+							passJ = -2
+							break
+						}
+						j := paramIndex(h, prm)
+						if passJ >= 0 && passJ != j {
+							passJ = -2
+							break
+						}
+						passJ = j
+					}
+					if passJ >= 0 && passJ < len(hc.Call.Args) {
+						if nn, known := p.FactsAt(hc).ErrNonNil(hc.Call.Args[passJ]); known {
+							if nn {
+								rs[0] = 0
+							} else {
+								rs[1] = 0
+							}
+						}
+					}
+				}
+			}
+			r.Check(rs[0]&^(tsUpToDate|tsEvalSucceeded) == 0 && rs[1]&(tsUpToDate|tsEvalSucceeded) == 0, "R18.1", construct, p.InstrPos(ret), "hands on the helper's result: nil after \""+tsName(rs[0])+"\", an error after \""+tsName(rs[1])+"\"", "hands on a helper's result that can be nil after \""+tsName(rs[0]&^(tsUpToDate|tsEvalSucceeded))+"\" or an error after \""+tsName(rs[1]&(tsUpToDate|tsEvalSucceeded))+"\"")
+			continue
+		}
 		if len(vals) == 1 {
 			if core.IsNilConst(vals[0]) {
 				r.Check(st&^(tsUpToDate|tsEvalSucceeded) == 0, "R18.1", construct, p.InstrPos(ret), "returns nil after \""+tsName(st)+"\"", "returns nil (success) although the last event may be \""+tsName(st&^(tsUpToDate|tsEvalSucceeded))+"\"")
@@ -331,11 +381,11 @@ func runC18(p *core.Prog, r *core.Result) {
 	evalErr := extractOf(m.Evaluate, 2)
 	for i, c := range m.Events["TargetSucceeded"] {
 		construct := fmt.Sprintf("dawn.(*runTarget).Evaluate#succeeded-on-success-%d", i+1)
-		if core.Dominates(m.Evaluate, c) {
+		if m.dom(m.Evaluate, c) {
 			nn, known := p.FactsAt(c).ErrNonNil(evalErr)
 			okSave := false
 			for _, s := range m.Saves {
-				if core.Dominates(s, c) {
+				if m.dom(s, c) {
 					if n2, k2 := p.FactsAt(c).ErrNonNil(s); k2 && !n2 {
 						okSave = true
 					}
@@ -349,7 +399,7 @@ func runC18(p *core.Prog, r *core.Result) {
 	}
 	// failed after the body only on its error edge (or the record write's)
 	for i, c := range m.Events["TargetFailed"] {
-		if !core.Dominates(m.Evaluate, c) {
+		if !m.dom(m.Evaluate, c) {
 			continue
 		}
 		nn, known := p.FactsAt(c).ErrNonNil(evalErr)
@@ -604,6 +654,45 @@ func runC18(p *core.Prog, r *core.Result) {
 // becomes the next c; (c) when there is a newline exactly one line is delivered per iteration: c[:nl] itself when the
 // buffer is known to be empty, otherwise the buffer after c[:nl] has been appended to it; (d) when there is no
 // newline all of c is appended to the buffer.
+// printLike: the call delivers a line to Events.Print - directly, or through a lineWriter helper that hands one of
+// its parameters to Print on every path (func (l *lineWriter) emit(line string)). Returns the delivered value.
+func printLike(c ssa.CallInstruction) (ssa.Value, bool) {
+	if isInvoke(c, "Events", "Print") {
+		return c.Common().Args[len(c.Common().Args)-1], true
+	}
+	h := core.Callee(c)
+	if h == nil || h.Blocks == nil || h.Signature.Recv() == nil || !strings.Contains(h.Signature.Recv().Type().String(), "lineWriter") {
+		return nil, false
+	}
+	for i, prm := range h.Params {
+		if i == 0 || i >= len(c.Common().Args) {
+			continue
+		}
+		isPrintOfParam := func(in ssa.Instruction) bool {
+			pc, ok := in.(*ssa.Call)
+			if !ok || !isInvoke(pc, "Events", "Print") {
+				return false
+			}
+			return core.DependsOn(pc.Call.Args[len(pc.Call.Args)-1], core.SliceOpts{}, func(v ssa.Value) bool { return v == ssa.Value(prm) })
+		}
+		any, all := false, true
+		core.Instrs(h, func(in ssa.Instruction) {
+			if isPrintOfParam(in) {
+				any = true
+			}
+		})
+		for _, ret := range core.ReturnsOf(h) {
+			if core.BlockReachesAvoiding(h.Blocks[0], ret, isPrintOfParam) {
+				all = false
+			}
+		}
+		if any && all {
+			return c.Common().Args[i], true
+		}
+	}
+	return nil, false
+}
+
 func checkLineReassembly(p *core.Prog, r *core.Result) {
 	w := need(p, r, "R18.5", "", "lineWriter", "Write")
 	if w == nil || len(w.Params) < 2 {
@@ -624,20 +713,26 @@ func checkLineReassembly(p *core.Prog, r *core.Result) {
 		r.Unk("R18.5", "dawn.(*lineWriter).Write#cursor", p.Pos(w.Pos()), "the loop over the unconsumed part of the chunk is not recognised")
 		return
 	}
-	var nl *ssa.Call
+	var nl, cut *ssa.Call
 	for _, c := range core.Calls(w) {
 		if call, ok := c.(*ssa.Call); ok && (core.IsCallTo(c, "bytes", "IndexByte") || core.IsCallTo(c, "bytes", "IndexRune")) && call.Call.Args[0] == ssa.Value(cur) {
 			if k, ok := core.ConstInt(call.Call.Args[1]); ok && k == 10 {
 				nl = call
 			}
 		}
+		// head, rest, found := bytes.Cut(c, []byte{'\n'})
+		if call, ok := c.(*ssa.Call); ok && core.IsCallTo(c, "bytes", "Cut") && call.Call.Args[0] == ssa.Value(cur) {
+			if isNewlineSep(call.Call.Args[1]) {
+				cut = call
+			}
+		}
 	}
-	if nl == nil {
+	if nl == nil && cut == nil {
 		r.Unk("R18.5", "dawn.(*lineWriter).Write#newline", p.Pos(w.Pos()), "the search for the first newline of the unconsumed part is not recognised")
 		return
 	}
 	isNlPlus := func(v ssa.Value, k int64) bool {
-		for {
+		for nl != nil {
 			if v == ssa.Value(nl) {
 				return k == 0
 			}
@@ -655,12 +750,19 @@ func checkLineReassembly(p *core.Prog, r *core.Result) {
 			}
 			return false
 		}
+		return false
 	}
 	isHead := func(v ssa.Value) bool {
+		if e, ok := v.(*ssa.Extract); ok && cut != nil && e.Tuple == ssa.Value(cut) {
+			return e.Index == 0
+		}
 		sl, ok := v.(*ssa.Slice)
 		return ok && sl.X == ssa.Value(cur) && sl.Low == nil && sl.High != nil && isNlPlus(sl.High, 0)
 	}
 	isTail := func(v ssa.Value) bool {
+		if e, ok := v.(*ssa.Extract); ok && cut != nil && e.Tuple == ssa.Value(cut) {
+			return e.Index == 1
+		}
 		sl, ok := v.(*ssa.Slice)
 		return ok && sl.X == ssa.Value(cur) && sl.High == nil && sl.Low != nil && isNlPlus(sl.Low, 1)
 	}
@@ -674,6 +776,14 @@ func checkLineReassembly(p *core.Prog, r *core.Result) {
 		nCuts++
 		r.Check(isHead(sl) || isTail(sl), "R18.5", fmt.Sprintf("dawn.(*lineWriter).Write#cut-%d", nCuts), p.InstrPos(sl), "the chunk is cut at its first newline (c[:nl] / c[nl+1:])", "the unconsumed part of a chunk is cut somewhere other than at its first newline: bytes are lost, duplicated or the newline is delivered as part of a line")
 	})
+	if cut != nil {
+		for _, ref := range *cut.Referrers() {
+			if e, ok := ref.(*ssa.Extract); ok && e.Index < 2 {
+				nCuts++
+				r.OK("R18.5", fmt.Sprintf("dawn.(*lineWriter).Write#cut-%d", nCuts), p.InstrPos(cut), "the chunk is cut at its first newline by bytes.Cut (before / after)")
+			}
+		}
+	}
 	r.Floor("R18.5", nCuts, 2, "cuts of the chunk")
 	// (b) the rest becomes the next cursor (or nil: nothing left)
 	for i, e := range cur.Edges {
@@ -692,10 +802,11 @@ func checkLineReassembly(p *core.Prog, r *core.Result) {
 	}
 	printsBuffer := func(in ssa.Instruction) bool {
 		c, ok := in.(*ssa.Call)
-		if !ok || !isInvoke(c, "Events", "Print") {
+		if !ok {
 			return false
 		}
-		return core.DependsOn(c.Call.Args[len(c.Call.Args)-1], core.SliceOpts{}, bufContent)
+		line, ok := printLike(c)
+		return ok && core.DependsOn(line, core.SliceOpts{}, bufContent)
 	}
 	// emitsBuffer: helper that prints the buffer on every path
 	emitsBuffer := func(f *ssa.Function) bool {
@@ -755,9 +866,10 @@ func checkLineReassembly(p *core.Prog, r *core.Result) {
 				continue
 			}
 			pos := p.InstrPos(call)
+			pline, isPrintLike := printLike(c)
 			switch {
-			case isInvoke(c, "Events", "Print"):
-				line := call.Call.Args[len(call.Call.Args)-1]
+			case isPrintLike:
+				line := pline
 				switch {
 				case printsBuffer(call):
 					ds = append(ds, delivery{call, "buffered"})
@@ -835,31 +947,64 @@ func checkLineReassembly(p *core.Prog, r *core.Result) {
 		}
 		return false
 	}
-	for _, ref := range *nl.Referrers() {
-		cmp, ok := ref.(*ssa.BinOp)
-		if !ok {
-			continue
-		}
-		for _, r2 := range *cmp.Referrers() {
-			iff, ok := r2.(*ssa.If)
+	// the tests of "a newline was found": comparisons of the index with -1 / 0, or the found result of bytes.Cut
+	type foundTest struct {
+		iff   *ssa.If
+		found int // successor index taken when a newline was found
+	}
+	var tests []foundTest
+	if nl != nil {
+		for _, ref := range *nl.Referrers() {
+			cmp, ok := ref.(*ssa.BinOp)
 			if !ok {
 				continue
 			}
-			k, isConst := core.ConstInt(cmp.Y)
-			if !isConst {
+			for _, r2 := range *cmp.Referrers() {
+				iff, ok := r2.(*ssa.If)
+				if !ok {
+					continue
+				}
+				k, isConst := core.ConstInt(cmp.Y)
+				if !isConst {
+					continue
+				}
+				switch {
+				case cmp.Op == token.EQL && k == -1, cmp.Op == token.LSS && k == 0:
+					tests = append(tests, foundTest{iff, 1})
+				case cmp.Op == token.NEQ && k == -1, cmp.Op == token.GEQ && k == 0, cmp.Op == token.GTR && k == -1:
+					tests = append(tests, foundTest{iff, 0})
+				}
+			}
+		}
+	}
+	if cut != nil {
+		for _, ref := range *cut.Referrers() {
+			e, ok := ref.(*ssa.Extract)
+			if !ok || e.Index != 2 {
 				continue
 			}
-			// which successor is "found"?
-			found := -1
-			switch {
-			case cmp.Op == token.EQL && k == -1, cmp.Op == token.LSS && k == 0:
-				found = 1
-			case cmp.Op == token.NEQ && k == -1, cmp.Op == token.GEQ && k == 0, cmp.Op == token.GTR && k == -1:
-				found = 0
+			for _, r2 := range *e.Referrers() {
+				switch x := r2.(type) {
+				case *ssa.If:
+					tests = append(tests, foundTest{x, 0})
+				case *ssa.UnOp:
+					if x.Op == token.NOT {
+						for _, r3 := range *x.Referrers() {
+							if iff, ok := r3.(*ssa.If); ok {
+								tests = append(tests, foundTest{iff, 1})
+							}
+						}
+					}
+				}
 			}
-			if found < 0 {
-				continue
-			}
+		}
+	}
+	if len(tests) == 0 {
+		r.Unk("R18.5", "dawn.(*lineWriter).Write#found-test", p.Pos(w.Pos()), "the branch on whether a newline was found is not recognised")
+	}
+	for _, ft := range tests {
+		{
+			iff, found := ft.iff, ft.found
 			hdr := cur.Block()
 			skipped := false
 			for _, q := range hdr.Preds {
@@ -921,10 +1066,10 @@ func checkLineBufferReset(p *core.Prog, r *core.Result) {
 		}
 		k := 0
 		for _, c := range core.Calls(fn) {
-			if !isInvoke(c, "Events", "Print") {
+			line, isPrint := printLike(c)
+			if !isPrint {
 				continue
 			}
-			line := c.Common().Args[len(c.Common().Args)-1]
 			buffered := core.DependsOn(line, core.SliceOpts{}, bufContent)
 			if !buffered {
 				continue
@@ -943,7 +1088,6 @@ func checkLineBufferReset(p *core.Prog, r *core.Result) {
 	}
 	r.Floor("R18.4", n, 1, "deliveries of the buffered line")
 }
-
 
 // ---- the line buffer of lineWriter, whatever its representation (strings.Builder / bytes.Buffer methods, or a
 // []byte / string field grown by append or +)
@@ -1054,7 +1198,6 @@ func bufRetains(in ssa.Instruction) (ssa.Value, bool) {
 	}
 	return st.Val, true
 }
-
 
 // eventsMethods lists the method names of the dawn.Events interface.
 func eventsMethods(p *core.Prog) map[string]bool {
@@ -1223,7 +1366,6 @@ func checkOutputSink(p *core.Prog, r *core.Result) {
 	r.Floor("R18.8", nSink, 1, "deliveries of lineWriter")
 }
 
-
 // checkRendererForwarding implements R18.9.
 func checkRendererForwarding(p *core.Prog, r *core.Result) {
 	names := eventsMethods(p)
@@ -1301,7 +1443,6 @@ func checkRendererForwarding(p *core.Prog, r *core.Result) {
 	r.Floor("R18.9", n, 10, "events of wrapping renderers")
 }
 
-
 // checkRunEventsDrain implements R18.10: events are handed to the callback by a goroutine that receives from a
 // channel. Whatever the buffering, nothing sent before Close may be dropped: the loop may only end on "channel closed
 // and empty" (the comma-ok receive reported false / a range loop finished), and Close must close that channel.
@@ -1366,4 +1507,23 @@ func checkRunEventsDrain(p *core.Prog, r *core.Result) {
 		}
 	})
 	r.Check(closes, "R18.10", "dawn.(*runEvents).Close#closes-event-channel", p.Pos(cls.Pos()), "Close closes the event channel, which lets the delivery loop drain it and stop", "Close does not close the event channel: the delivery loop cannot know when everything has been delivered")
+}
+
+// isNewlineSep: v is the one-byte separator "\n" as a []byte: []byte{'\n'}, []byte("\n") or a slice of such an array.
+func isNewlineSep(v ssa.Value) bool {
+	v = core.Unwrap(v)
+	if cv, ok := v.(*ssa.Convert); ok {
+		s, ok := core.ConstString(cv.X)
+		return ok && s == "\n"
+	}
+	sl, ok := v.(*ssa.Slice)
+	if !ok {
+		return false
+	}
+	elems, ok := tupleElemsAny(sl)
+	if !ok || len(elems) != 1 {
+		return false
+	}
+	k, ok := core.ConstInt(elems[0])
+	return ok && k == 10
 }
